@@ -264,6 +264,7 @@ class Folder:
         v = self.expr(e.value, env)
         if isinstance(v, RegexConst) and e.attr in ('pattern', 'flags'): return getattr(v, e.attr)
         if isinstance(v, RegexConst) and e.attr in ('match', 'search', 'fullmatch'): return ('rxbound', v, e.attr)
+        if isinstance(v, re.Match) and e.attr in ('group', 'groups', 'groupdict', 'span', 'start', 'end'): return ('mbound', v, e.attr)
         if isinstance(v, tuple) and v[:1] == ('module',): return ('modattr', v[1], e.attr)
         if isinstance(v, (str, list, dict, tuple, set)): return ('bound', v, e.attr)
         raise Unfoldable('attr %s' % e.attr)
@@ -289,6 +290,8 @@ class Folder:
             if isinstance(fl, tuple) and fl[:2] == ('modattr', 're') and hasattr(re, fl[2]): fl = int(getattr(re, fl[2]))
             if not isinstance(fl, int): raise Unfoldable('regex flags')
             return getattr(re.compile(f[1].pattern, fl), f[2])(args[0])
+        if isinstance(f, tuple) and f[0] == 'mbound':
+            return getattr(f[1], f[2])(*args, **kw)          # a match object of the stdlib engine on folded constants
         if isinstance(f, tuple) and f[0] == 'bound':
             _, obj, name = f
             if isinstance(obj, str) and name in STR_METHODS: return getattr(obj, name)(*args, **kw)
